@@ -882,6 +882,39 @@ Section PackProofs.
     congruence.
   Qed.
 
+  (* the same for any state in which the result and the invented blobs are already present (e.g. after
+     any number of other calls): the call finds everything there, returns the same, stores nothing *)
+  Theorem settled_call_changes_nothing f tc s at_ o now ann s2 r2 :
+    t_key tc <> KFile ->
+    must_reject f at_ o = false ->
+    ensure_created (o_ann o) (created_key f) now = Some ann ->
+    stored (t_key tc) (s_store s) (result_desc f (requested_manifest f at_ o ann)) = true ->
+    Forall (fun x => stored (t_key tc) (s_store s) x = true) (invented f at_ o) ->
+    pack marshal H f tc None s at_ o now = (s2, r2) ->
+    r2 = Ok (result_desc f (requested_manifest f at_ o ann)) (requested_manifest f at_ o ann) /\
+    s_store s2 = s_store s.
+  Proof.
+    intros NF MR EC1 St1 I1 P2.
+    apply pack_outcome in P2. inversion P2 as [e MR2 V2 | s2' evs2 MR2 EC2 S2 B2 | s2' evs2 MR2 F2 S2 B2
+                                              | s2' evs2 ann2 m2 MR2 F2 EC2 Em2 S2 B2
+                                              | s2' evs2 ann2 m2 MR2 EC2 Em2 S2 B2 St2 I2]; subst;
+      try congruence; try (destruct F2 as [F2 | F2]; congruence).
+    rewrite EC1 in EC2. injection EC2 as <-. split; [reflexivity|].
+    destruct S2 as (_ & l & E & PB & FR). rewrite E.
+    destruct l as [|e l]; [now rewrite app_nil_r | exfalso].
+    inversion PB as [|? ? (r & d0 & bytes & In0 & ->) _]; subst.
+    inversion FR as [|? ? Fe _]; subst.
+    assert (N : is_nil (e_name (mkEntry (d_mt d0) (d_dg d0) (d_sz d0) bytes (entry_name (t_key tc) d0))) = true).
+    { cbn [e_name]. now rewrite entry_name_nofile. }
+    specialize (Fe N). rewrite push_dup_as_desc, <- stored_push_dup in Fe by exact NF.
+    assert (St0 : stored (t_key tc) (s_store s) d0 = true).
+    { apply in_app_or in In0 as [In0 | In0].
+      - rewrite Forall_forall in B2. destruct (B2 _ In0) as (_ & d' & Id' & [Ev | Ev]); [discriminate|].
+        injection Ev as _ -> _. rewrite Forall_forall in I1. now apply I1.
+      - destruct In0 as [Ev | []]. injection Ev as _ <- _. exact St1. }
+    congruence.
+  Qed.
+
   Lemma requested_ann f at_ o ann : m_ann (requested_manifest f at_ o ann) = ann.
   Proof. destruct f; reflexivity. Qed.
 
@@ -1178,6 +1211,27 @@ Section HistoryProofs.
     destruct (ok_consistent marshal H H_empty _ _ _ _ _ _ _ _ _ _ P) as (ann & evs & _ & _ & _ & S & _ & St & _).
     split; [exact St|]. apply Forall_forall. intros x Ix. destruct (C x Ix) as [I | I]; auto.
     rewrite Forall_forall in Sup. eapply stored_steps; eauto.
+  Qed.
+
+  (* Repeating an earlier successful call (fixed created) after ANY other calls on a content-addressed
+     target returns what it returned then and stores nothing. *)
+  Theorem history_repeat_changes_nothing tc c cs fa1 s s1 d m v sB rsB now' sC r :
+    t_key tc <> KFile ->
+    ann_get (created_key (c_fn c)) (o_ann (c_opts c)) = Some v ->
+    pack marshal H (c_fn c) tc fa1 s (c_at c) (c_opts c) (c_now c) = (s1, Ok d m) ->
+    run_calls marshal H tc None s1 cs = (sB, rsB) ->
+    pack marshal H (c_fn c) tc None sB (c_at c) (c_opts c) now' = (sC, r) ->
+    r = Ok d m /\ s_store sC = s_store sB.
+  Proof.
+    intros NF G P1 R P2.
+    pose proof (ok_not_rejected marshal H H_empty _ _ _ _ _ _ _ _ _ _ P1) as MR.
+    destruct (ok_consistent marshal H H_empty _ _ _ _ _ _ _ _ _ _ P1) as (ann & evs & EC & -> & -> & _ & _ & St & I).
+    destruct (run_calls_steps _ _ _ _ _ _ R) as (evs2 & S2 & _).
+    rewrite (ensure_created_fixed _ _ (c_now c) now' v G) in EC.
+    apply (settled_call_changes_nothing marshal H H_empty (c_fn c) tc sB (c_at c) (c_opts c) now' ann sC r NF MR EC).
+    - eapply stored_steps; eauto.
+    - eapply Forall_impl; [|exact I]. intros x Sx. eapply stored_steps; eauto.
+    - exact P2.
   Qed.
 
   (* the number of results is the number of calls: every call ends (no call is lost or repeated) *)
